@@ -21,6 +21,7 @@ fn main() {
         "encfs" => h::eng_layers::main_encfs(rest),
         "writer" => h::eng_writer::main(rest),
         "repair" => h::eng_repair::main(rest),
+        "many" => h::eng_repair::main_many(rest),
         "reader" => h::eng_reader::main(rest),
         "transfer" => h::eng_transfer::main(rest),
         "tamper" => h::eng_tamper::main(rest),
